@@ -1108,7 +1108,16 @@ def decline_conditions_rule(chk, P, key):
             inner = c.body.origin(c.args[0])
             txt = o_str(inner)
             st = c.callee.get("self_ty") or full
-            if "(u64, u64)" in st:
+            if "(u64, u64)" in st or "Range<" in st:
+                return "extent-range"
+            names, y, d_ = [], inner, 0
+            while y[0] == "call" and d_ < 10:
+                names.append(y[1].callee.get("name"))
+                if not y[1].args:
+                    break
+                y = y[1].body.origin(y[1].args[0])
+                d_ += 1
+            if "as_range" in names or ("extent" in names and not any(n in ("filter", "take_if") for n in names)):
                 return "extent-range"
             if "NumberDataPoint" in st:
                 return "points"
